@@ -354,6 +354,31 @@ def forms_program():
     )
     F.append(
         fn(
+            # three managers, each made from the target of the one before
+            "withthree",
+            ["p"],
+            [
+                ["withn", ["a", "b", "c"], [["bind", "x", ["add", var("p"), V]], use("a", "b", "c")]],
+                ["ret", var("p")],
+            ],
+        )
+    )
+    F.append(
+        fn(
+            # a module global that is declared, read and unbound
+            "globdel",
+            ["p"],
+            [
+                ["global", "G1"],
+                use("G1"),
+                ["del", "G1"],
+                ["bind", "w", V],
+                ["ret", var("w")],
+            ],
+        )
+    )
+    F.append(
+        fn(
             "augwalrus",
             ["p"],
             [
@@ -960,6 +985,17 @@ def decl_program():
     F = [
         fn("d1", ["p"], [["ann", "x", "int", None], use("x", "p"), ["bind", "y", ["add", var("x"), V]], ["ret", var("y")]]),
         fn(
+            # a generator that calls a declaring function each time it runs again: the declaration
+            # is supplied along the call path dstream > d1 > x
+            "dstream",
+            ["p"],
+            [
+                ["bind", "s", V],
+                ["while", [["bind", "r", ["call", "d1", [V]]], ["yield", var("r"), None]]],
+                ["ret", var("s")],
+            ],
+        ),
+        fn(
             "d2",
             ["p"],
             [
@@ -1099,6 +1135,19 @@ def genctx_program():
                 ["while", [["try", [["yield", var("x"), None]], [["Exception", None, [["bind", "r", ["call", "g", [V]]]]]], [], []]]],
                 ["bind", "r", ["call", "g", [V]]],
             ],
+        ),
+        fn(
+            # a generator that drives another one: both are suspended at the same time, and the
+            # inner one runs again only when the outer one is advanced
+            "gen7",
+            ["p"],
+            [
+                ["bind", "w", V],
+                ["bind", "inner", ["call", "gen2", [V]]],
+                ["while", [["bind", "r", ["next", "inner"]], ["yield", var("r"), None]]],
+                ["bind", "r", ["call", "g", [V]]],
+            ],
+            mutable=["inner"],
         ),
         fn(
             # coroutine style: suspends at a bare yield (it hands nothing out)
